@@ -141,7 +141,7 @@ var checkC02Walk = def("C02/walk", func(gc gen.GameCase) error {
 })
 
 func TestC02_walk(t *testing.T) {
-	runRapid(t, "C02/walk", 6000, func(t *rapid.T) gen.GameCase {
+	runRapid(t, "C02/walk", 20000, func(t *rapid.T) gen.GameCase {
 		gc, _ := gen.Game(t, 80)
 		return gc
 	}, func(gc gen.GameCase) error {
@@ -183,7 +183,7 @@ var checkC02Synth = def("C02/synth", func(c struct{ FEN string }) error {
 })
 
 func TestC02_synth(t *testing.T) {
-	runRapid(t, "C02/synth", 6000, func(t *rapid.T) struct{ FEN string } {
+	runRapid(t, "C02/synth", 20000, func(t *rapid.T) struct{ FEN string } {
 		return struct{ FEN string }{gen.Synth(t).FEN()}
 	}, func(c struct{ FEN string }) error {
 		stats.Sample("C02/synth", c.FEN)
